@@ -70,6 +70,12 @@ func c20ExprPatterns() []c20Pat {
 		{"near-and-nil", func(a, b string) string { return a + " and nil" }, m()},
 		{"dc-or-paren-true", func(a, b string) string { return a + " or (true)" }, m(15, expDC)},
 		{"nested-or-true", func(a, b string) string { return "(" + a + " or true) and " + b }, m(15, 1)},
+		// one occurrence as the left operand of another occurrence of the same check (both start at the same token)
+		{"chain-or-true-twice", func(a, b string) string { return a + " or true or true" }, m(15, 2)},
+		{"chain-and-false-twice", func(a, b string) string { return a + " and false and false" }, m(16, 2)},
+		{"chain-or-true-paren", func(a, b string) string { return "(" + a + " or true) or true" }, m(15, 2)},
+		{"chain-eq-float-twice", func(a, b string) string { return a + " == 0.5 == 1.5" }, m(21, 2)},
+		{"chain-same-eq-then-float", func(a, b string) string { return a + " == " + a + " == 2.5" }, m(14, 1, 21, 1)},
 		// 21
 		{"eq-float", func(a, b string) string { return a + " == 1.5" }, m(21, 1)},
 		{"float-ne", func(a, b string) string { return "0.25 ~= " + a }, m(21, 1)},
